@@ -32,6 +32,15 @@ RangeOf(s) == {s[i] : i \in DOMAIN s}
 BagOf(s) == [x \in RangeOf(s) |-> Cardinality({i \in DOMAIN s : s[i] = x})]
 Sel(s, P(_)) == SelectSeq(s, P)
 
+(* RTMA_LOG* messages the manager publishes about itself when its logging is enabled are noise (DESIGN 2.9): they must
+   respect sequence numbering (checked on the raw observation) and are otherwise ignored, also inside the statistics *)
+IsLogNoise(f) == f.src = 0 /\ f.t \in LOG_TYPES
+DropLogPairs(ps) == SelectSeq(ps, LAMBDA e : e[1] \notin LOG_TYPES)
+Denoise(f) == IF f.p.k = "timing" THEN [f EXCEPT !.p.counts = DropLogPairs(@)]
+              ELSE IF f.p.k = "traffic" THEN [f EXCEPT !.p.ent = DropLogPairs(@)]
+              ELSE f
+Clean(s) == LET t == SelectSeq(s, LAMBDA f : ~IsLogNoise(f)) IN [i \in DOMAIN t |-> Denoise(t[i])]
+
 (* canonical, order-insensitive content of what one connection received in a step *)
 IsTraffic(f) == f.t = TRAFFIC /\ f.src = 0 /\ f.p.k = "traffic"
 RECURSIVE ConcatEnts(_)
@@ -43,7 +52,7 @@ Canon(s) == [frames |-> BagOf([i \in DOMAIN Sel(s, LAMBDA f : ~IsTraffic(f)) |->
              traffic |-> TrafficAgg(s)]
 
 Conns(e1, e2) == DOMAIN e1 \cup DOMAIN e2
-ProjEq(e1, e2, P(_)) == \A c \in Conns(e1, e2) : Canon(Sel(Get(e1, c), P)) = Canon(Sel(Get(e2, c), P))
+ProjEq(e1, e2, P(_)) == \A c \in Conns(e1, e2) : Canon(Sel(Clean(Get(e1, c)), P)) = Canon(Sel(Clean(Get(e2, c)), P))
 
 IsData(f)    == f.p.k = "d"
 IsFailed(f)  == f.t = FAILED /\ f.p.k = "failed"
@@ -81,7 +90,7 @@ FailedProps(Cands, ev) ==
 ObsAsHub(ev) == [emit |-> ev.emit]
 C05Fail(Hpre, ev) ==
      (IF ~SeqGapFree(Hpre, ObsAsHub(ev)) THEN {"C05.SeqGap"} ELSE {})
-\cup (IF ~TotalOrder(ObsAsHub(ev)) THEN {"C05.TotalOrder"} ELSE {})
+\cup (IF ~TotalOrder([emit |-> [c \in DOMAIN ev.emit |-> Clean(ev.emit[c])]]) THEN {"C05.TotalOrder"} ELSE {})
 
 (* sequence counters follow the observation (the number of MESSAGE_TRAFFIC sub-messages is open) *)
 FollowCnt(Hpre, cand, ev) ==
